@@ -37,6 +37,10 @@ Definition find_dworker (d : dump) (k : skey) (w : N * N) : option d_worker :=
 Definition find_dop (d : dump) (o : nat) : option d_op := find (fun x => Nat.eqb (do_name x) o) (d_ops d).
 Definition find_dinv (q : d_scq) (p : path) : option d_inv := find (fun i => path_eqb (di_path i) p) (ds_invs q).
 Definition dkey_of (o : d_op) : list N * N := (do_instance o, do_digest o).
+(* operation names are never reused and an operation belongs to one task for ever, while the set of operations of a
+   task changes as duplicates attach and abandoned ones are removed: two operation lists name the same task iff they
+   share an operation *)
+Definition shares_op (a b : list nat) : bool := existsb (fun o => existsb (Nat.eqb o) a) b.
 Definition same_task (a b : d_op) : bool := same_set Nat.eqb (do_taskops a) (do_taskops b).
 Definition is_drained_d (q : d_scq) (w : d_worker) (k : skey) : bool :=
   dw_term w || existsb (matches (mkW k (fst (dw_id w)) (snd (dw_id w)))) (ds_drains q).
@@ -542,7 +546,7 @@ Definition p_step (cfg : config) (t0 : Z) (m : mon) (pre : dump) (e : event) (o 
             | Some ops =>
               let prev := aget wref_eqb w (m_reissue m) in
               let n := match prev with
-                       | Some (ops0, n0) => if same_set Nat.eqb ops0 ops then S n0 else O
+                       | Some (ops0, n0) => if shares_op ops0 ops then S n0 else O
                        | None => O
                        end in
               (m <| m_reissue := aset wref_eqb w (ops, n) (m_reissue m) |>,
@@ -565,7 +569,7 @@ Definition p_step (cfg : config) (t0 : Z) (m : mon) (pre : dump) (e : event) (o 
                       if scheduler_made r && (r_code r =? cINTERNAL)%N then
                         match aget wref_eqb (mkW (do_sk o0) (fst wk) (snd wk)) (m_reissue m0) with
                         | Some (ops0, n0) =>
-                          if same_set Nat.eqb ops0 (do_taskops o0) && negb (Nat.eqb n0 (cf_retry_count cfg))
+                          if shares_op ops0 (do_taskops o0) && negb (Nat.eqb n0 (cf_retry_count cfg))
                           then "C06:task-failed-before-retry-limit" else ""
                         | None => ""
                         end
